@@ -2,6 +2,7 @@ package main
 
 import (
 	"6502profiler/emuconfig"
+	"6502profiler/memory"
 	"fmt"
 	"sort"
 	"strings"
@@ -118,7 +119,11 @@ func machCountCase(r *rng.R, spec string) string {
 
 func machCountStream(seed uint64, n int) {
 	r := rng.New(seed + 303)
+	rw := rng.New(seed + 30303) // the wrapped machines draw from their own generator: the cases above stay what they were
 	for _, spec := range memSpecs {
+		for i := 0; i < 4+n/8; i++ {
+			emit(machWrapCase(rw, spec, i))
+		}
 		for i := 0; i < n; i++ {
 			emit(machCountCase(r, spec))
 		}
@@ -128,6 +133,164 @@ func machCountStream(seed uint64, n int) {
 			}
 		}
 	}
+}
+
+// ---------------------------------------------------------------------------------------
+// C03 under a wrapper layer (memory.WrappingMemory between the CPU and the memory model): the machine is built with the
+// F256 coprocessor enabled (Config.F256MCoprocFlags 1/4/5, base inside the plain RAM of the machine) or carries the
+// trap placeholder (memory.NewPlaceholderWrapper, as caseexec installs it) with NO trap function set.  The program
+// stores to operand registers, result registers, their neighbours and the same offsets in the adjacent page, resp. to
+// the trap address and its neighbours, with every store form, reads them and read-modify-writes them.  Each store is
+// one logical write: the byte's count grows by exactly one (plus, for an operand register of an enabled unit, the
+// unit's own documented bookkeeping: one load of each of its four operand bytes and one store to each result byte it
+// refreshes, DESIGN.md C03 scope).  Request: `machcount SPEC MODEL CODE c<flags>:<base>` or `... t:<trapaddr>`.
+
+func machWrapCase(r *rng.R, spec string, idx int) string {
+	model := r.Intn(2)
+	limit := machLimit(spec)
+	pages := limit / 256
+	// a page of plain RAM that is neither zero page, stack nor the program's page
+	page := 0x06 + r.Intn(pages-0x06)
+	switch r.Intn(4) {
+	case 0:
+		page = pages - 1 // the last page of plain RAM
+	case 1:
+		if limit == 0x10000 {
+			page = 0xDE // the documented default
+		}
+	}
+	off := []int{0x00, 0x00, 0x40, 0xE0, 0xE8, 0x08}[r.Intn(6)]
+	trap := idx%2 == 1
+	flags := []int{1, 4, 5, 5}[r.Intn(4)]
+	if idx == 0 {
+		flags, off = 5, 0
+	}
+	if idx == 1 {
+		off = 0xDD
+	}
+	if idx >= 4 && trap {
+		off = r.Intn(256)
+	}
+	base := uint16(page<<8 | off)
+	adj := uint16(page+1) << 8 // the adjacent page (still plain RAM)
+	if page > 0x06 {
+		adj = uint16(page-1) << 8
+	}
+	// the addresses the program aims at
+	target := func() uint16 {
+		if trap {
+			switch r.Intn(8) {
+			case 0:
+				return base&0xFF00 | uint16(uint8(off+1)) // neighbour in the page (passes through the layer)
+			case 1:
+				return base&0xFF00 | uint16(uint8(off-1))
+			case 2:
+				return adj | uint16(off) // same offset, adjacent page
+			}
+			return base
+		}
+		switch r.Intn(10) {
+		case 0:
+			return base + 0x10 + uint16(r.Intn(8)) // result registers
+		case 1:
+			return base + 8 + uint16(r.Intn(8)) // between operands and results
+		case 2:
+			return (adj | uint16(off)) + uint16(r.Intn(8)) // same offsets, adjacent page
+		}
+		return base + uint16(r.Intn(8))
+	}
+	zp := func() uint8 { return uint8(0x20 + 2*r.Intn(0x60)) }
+	p := []uint8{}
+	n := 1 + r.Intn(7)
+	if idx < 2 {
+		n = 1
+	}
+	for i := 0; i < n; i++ {
+		a := target()
+		v := r.BByte()
+		c := r.Intn(9)
+		if i == 0 {
+			// every case has at least one plain store to the special address itself
+			c = 0
+			if trap {
+				a = base
+			} else if flags == 4 {
+				a = base + 4 + uint16(r.Intn(4))
+			} else {
+				a = base + uint16(r.Intn(4))
+			}
+			if idx < 2 {
+				a = base
+			}
+		}
+		switch c {
+		case 0, 1:
+			p = append(p, 0xA9, v, 0x8D, lo(a), hi(a)) // LDA #; STA abs
+		case 2:
+			p = append(p, 0xA2, v, 0x8E, lo(a), hi(a)) // LDX #; STX abs
+		case 3:
+			p = append(p, 0xEE, lo(a), hi(a)) // INC abs: one read, one write
+		case 4:
+			p = append(p, 0x0E, lo(a), hi(a)) // ASL abs
+		case 5:
+			d := uint8(r.Intn(int(lo(a)) + 1))
+			p = append(p, 0xA0, d, 0xA9, v, 0x99, lo(a-uint16(d)), hi(a-uint16(d))) // LDY #d; LDA #; STA abs,Y
+		case 6:
+			z := zp()
+			p = append(p, 0xA9, lo(a), 0x85, z, 0xA9, hi(a), 0x85, z+1, 0xA0, 0x00, 0xA9, v, 0x91, z) // pointer; LDA #; STA (zp),Y
+		case 7:
+			p = append(p, 0xAD, lo(a), hi(a)) // LDA abs: a read is never handed to a handler
+		case 8:
+			p = append(p, 0xA2, 0x00, 0xBD, lo(a), hi(a)) // LDX #0; LDA abs,X
+		}
+	}
+	p = append(p, 0x00)
+	wrap := fmt.Sprintf("c%d:%04x", flags, base)
+	if trap {
+		wrap = fmt.Sprintf("t:%04x", base)
+	}
+	pend("machcount %s %d %s %s", spec, model, hexOf(p), wrap)
+	cfg := emuconfig.DefaultConfig()
+	cfg.MemSpec = spec
+	if model == 1 {
+		cfg.Model = "65C02"
+	}
+	if !trap {
+		cfg.F256MCoprocFlags = uint8(flags)
+		cfg.F256MCoprocBase = base
+	}
+	c, err := cfg.NewCpu()
+	if err != nil {
+		panic(err)
+	}
+	if trap {
+		// what caseexec's wrapperCpuProvider does for -trapaddr; no trap function is installed
+		c.Mem = memory.NewPlaceholderWrapper(c.Mem, base).Wrapper
+	}
+	res := "halt"
+	stats := []string{}
+	if protect(func() {
+		for i, b := range p {
+			c.Mem.Store(0x0400+uint16(i), b)
+		}
+		c.Mem.ClearStatistics()
+		if e := c.RunExt(0x0400, true); e != nil {
+			res = "error"
+		}
+		for a := 0; a < limit; a++ {
+			if v := c.Mem.GetStatistics(uint16(a)); v != 0 {
+				stats = append(stats, fmt.Sprintf("%x:%d", a, v))
+			}
+		}
+	}) {
+		res = "hostcrash"
+	}
+	kind := "coproc"
+	if trap {
+		kind = "trap"
+	}
+	count("machcount.wrapped." + kind)
+	return fmt.Sprintf("machcount %s %d %s %s => %s | %s", spec, model, hexOf(p), wrap, res, strings.Join(stats, " "))
 }
 
 // ---------------------------------------------------------------------------------------
